@@ -6,7 +6,8 @@ R18.e     erand48 packs sign 0, exponent 0x3ff, mantissa x'[47:0] : x'[47:44], m
 R18.s     srand48(seed) -> (seed[31:16], seed[15:0], 0x330e)
 R18.r32   Rand32: next = 1664525*s + 1013904223; nextf mantissa = s'[22:0], exponent 0x7f, minus 1; nextb = bit 31; nexti = low 32
 R18.pure  results depend only on the state argument / member (and the documented static state)
-R18.range nextf(a,b) = a*(1-f) + b*f; the rejection loops return only when their acceptance test holds
+R18.range nextf(a,b) = a*(1-f) + b*f; the rejection loops return only when their acceptance test holds;
+          hollowSphereRand (Vec2/3/4, float/double) returns v_i / length with the length in the element type
 """
 import os
 from fractions import Fraction
